@@ -977,6 +977,7 @@ def set_parents(tree: ast.AST) -> None:
 
 
 _TREE_CACHE: dict = {}
+_RAW_CACHE: dict = {}
 
 
 class Program:
@@ -991,18 +992,33 @@ class Program:
         self.enums: dict[str, list[tuple[str, object]]] = {}
         self.settings: dict[str, object] = {}
         self.settings_unresolved: list[str] = []
+        from .inline import inline_private_helpers, inherited_helpers
+        from .sra import split_tuple_locals
+        # private helpers inherited from a base class in another module are inlined too: which ones a module sees is part of its cache key
+        raw = {}
+        for path, src in sources.items():
+            r_ = _RAW_CACHE.get((path, src))
+            if r_ is None:
+                try:
+                    r_ = ast.parse(src, filename=path)
+                except SyntaxError as e:
+                    raise AnalysisError(f"{path}: does not parse: {e}")
+                if len(_RAW_CACHE) > 400:
+                    _RAW_CACHE.clear()
+                _RAW_CACHE[(path, src)] = r_
+            raw[path] = r_
+        foreign = inherited_helpers(raw)
         for path, src in sorted(sources.items()):
-            key = (path, src)
+            extra = foreign.get(path) or {}
+            key = (path, src, tuple(sorted((k, ast.dump(v)) for k, v in extra.items())))
             tree = _TREE_CACHE.get(key)
             if tree is None:
                 try:
                     tree = ast.parse(src, filename=path)
                 except SyntaxError as e:
                     raise AnalysisError(f"{path}: does not parse: {e}")
-                from .inline import inline_private_helpers
-                from .sra import split_tuple_locals
                 split_tuple_locals(tree)              # `sig = (n, d)` used only piecewise is two locals
-                inline_private_helpers(tree)          # "extract helper" undone before anything looks at the shape of a function
+                inline_private_helpers(tree, extra)   # "extract helper" undone before anything looks at the shape of a function
                 tree = _Canon().visit(tree)
                 ast.fix_missing_locations(tree)
                 set_parents(tree)
